@@ -63,6 +63,20 @@ CLAIMS = {
         "Not decided: processImports' prefix sums (cumulative offsets) and lowest-ID-wins across imports - lstWF is an assumed precondition of the "
         "lst methods, established by constructors that are not under contract; observers of foreign SymbolTable implementations are assumed pure.",
         "DESIGN.md section 7 C09"),
+    "C10": (
+        "The symbol-table context of the readers under contract: binaryReader.readBVM resets r.lst to the system table exactly on a valid 1.0 "
+        "version marker; binaryReader.next intercepts a top-level struct annotated $ion_symbol_table (it installs a non-nil table and does not "
+        "return the struct as a value; a null struct resets to the system table); readImport resolves one import declaration as the property "
+        "states, proved over the function's own locals (FindExact is asked for the declared name and version >= 1, never for an empty name or "
+        "$ion; FindLatest only after FindExact found nothing; a missing max_id is replaced by the table's own only when the versions match, "
+        "otherwise the call fails; the table is adjusted to exactly the declared max_id; without a catalog a placeholder with the declared "
+        "name and version is built); readSymbols gives every element of the symbols list exactly one slot (ghost call counter on Reader.Next); "
+        "sst.Adjust pads and truncates as specified.",
+        "Not decided: that every later symbol ID is resolved against the installed table in the text reader, the $ion_symbol_table append case of "
+        "readImports, NewLocalSymbolTable/processImports offsets, and the Catalog implementations (FindExact/FindLatest are assumed pure "
+        "observers). The Reader seen by readLocalSymbolTable is an interface (pure observers, versioned ghost state); binaryReader.next "
+        "calls readLocalSymbolTable by an assumed thin contract.",
+        "DESIGN.md section 7 C10"),
     "C12": (
         "For every method of both writers (binary and text, 24 methods each, plus FieldName/Annotation/Annotations): once w.err is set the call "
         "returns it and leaves it in place, and a call other than Finish that returns an error has recorded it in w.err - so checking the final "
@@ -76,8 +90,22 @@ CLAIMS = {
         "ReadSymbolID decode exactly (int64 fast path iff the magnitude fits, otherwise big.Int); ReadFloat decodes 4- and 8-byte IEEE values "
         "exactly; IntSize/IntValue/Int64Value/BigIntValue and every other accessor return nil for a typed null of their type, a usage error for "
         "another type, the exact value when it fits and an error when it does not.",
-        "Writer-side WriteFloat/WriteBigInt and the text parser parseInt are not under contract yet. math/big is a trusted integer model.",
+        "Writer side: WriteFloat stores four bytes only when float32 is lossless, binaryWriter.WriteInt/WriteUint emit sign nibble, length and the exact "
+        "big-endian magnitude for every 64-bit value, WriteBigInt never delegates to a fixed-width path unless the value fits it, and the Encoder "
+        "never narrows an unsigned 64-bit value into WriteInt. The text parser parseInt and writeBigInt's byte layout are not under contract. "
+        "math/big is a trusted integer model.",
         "DESIGN.md section 7 C13"),
+    "C14": (
+        "Decimal arithmetic under contract, over the reading 'a Decimal denotes n * 10^(-scale)': upscale multiplies the coefficient by exactly "
+        "10^(scale difference); rescale brings both operands to the finer of the two scales; Add, Sub, Cmp and Equal are the integer sum, "
+        "difference and comparison of the coefficients at that common scale; Mul multiplies coefficients and adds scales; Neg, Abs and Sign act on "
+        "the coefficient alone; ShiftL/ShiftR move only the scale by exactly the shift (no silent wrap: out-of-range exponents are the documented "
+        "panic, a precondition here); Truncate keeps exactly the requested number of leading digits of the coefficient, counts the sign as no "
+        "digit, adds the dropped digit count to the exponent, and returns a value with no more digits than requested unchanged.",
+        "Not decided: Decimal.String / ParseDecimal and their round trip including negative zero (string building through fmt/strings.Builder/"
+        "strconv is outside the generator's subset), trunc/round. math/big is the trusted integer model (Exp and the digit string are "
+        "uninterpreted functions with the stated laws), so 'exact' is exactness of the integer expressions at the common scale.",
+        "DESIGN.md section 7 C14"),
     "C15": (
         "Binary timestamps: timestampLen equals the bytes appendTimestamp appends for every field combination (offset or unknown offset, year, "
         "the five precisions, fraction digits and coefficient); TruncatedNanoseconds stays within the nanosecond field and is exact at nine "
@@ -89,6 +117,18 @@ CLAIMS = {
         "are outside the subset: strconv/time formatting), calendar validity beyond the field ranges (time.Date is an abstract function). "
         "readNsecs is a trusted thin contract; time.Time getters are trusted ranged functions.",
         "DESIGN.md section 7 C15"),
+    "C16": (
+        "The kind dispatch of both directions is under contract. Encoder.encodeValue hands every Go value to the Writer method of its Ion type "
+        "with exactly that value (atcall obligations on the Writer interface: WriteBool for bool; WriteInt only for signed kinds with v.Int() or "
+        "for uint8/16/32 with the same non-negative value; WriteBigInt with exactly v.Uint() for uint, uint64 and uintptr; WriteFloat with "
+        "v.Float(); WriteString/WriteSymbolFromString by the symbol hint; WriteNull only for an invalid value). Decoder.decodeTo calls each "
+        "decodeXTo helper only on a non-null value of its own Ion type; the helpers store exactly the Reader's value through the reflect setter "
+        "of the matching kind (bool, signed/unsigned integers with overflow guards, floats, strings, symbols with text).",
+        "Not decided: struct field discovery and tags (fields.go), maps, slices, arrays, pointers and interfaces (reflection-heavy code called by "
+        "thin assumed contracts), the special struct types (Timestamp, Decimal, time.Time, big.Int), determinism of MarshalText, and the "
+        "composition into Unmarshal(Marshal(v)) == v. reflect is a trusted model (observers are pure functions; Kind() is the kind of Type(); "
+        "a value of kind uint8/16/32 is below 2^8/2^16/2^32); Writer and Reader are seen through interface contracts.",
+        "DESIGN.md section 7 C16"),
     "C17": (
         "Every reflect setter in decodeIntTo and decodeFloatTo is preceded by the guard that says the value fits (atcall obligations on "
         "reflect.Value.SetInt/SetUint/SetFloat: not OverflowInt/OverflowUint/OverflowFloat of the very value stored; the stored integer is the "
